@@ -8,7 +8,6 @@ Known-defect triggers of the pinned tree that the generator AVOIDS (each is a
 decidable predicate on the case; witnesses live in corpus/C04/finding_*.json):
   D24  input assigned to a derived cells             -> inputs only on defined cells
   D33  refmode != auto on a non-object reference      -> refmode only on object refs
-  D34  allow_none assigned to a cells that has derived copies (not propagated; C03 domain) -> left None
   D36  a reference name defined in two spaces that share a sub space, in an order the reader
        cannot replay (references are set after all bases)  -> later definition dropped
 (see findings.d/C04.txt).  `avoid=False` switches the avoidance off (used to
@@ -60,7 +59,7 @@ class Gen:
         self.spaces = {}              # tuple(path) -> Sp
         self.order = []
         self.mrefs = {}
-        self.filtered = {"D24": 0, "D33": 0, "D34": 0, "D36": 0, "D37": 0}
+        self.filtered = {"D24": 0, "D33": 0, "D36": 0, "D37": 0}
         self.deferred = []
         self.features = set()
 
@@ -250,10 +249,7 @@ class Gen:
         src, npar = self.gen_formula(sp, name, cached, want_def)
         op = {"op": "cells", "space": sp.path, "name": name, "formula": src}
         an = self.pick([None, None, True, False])
-        if an is not None and self.avoid and self.has_subs(sp):
-            # D34: allow_none assigned to a cells that already has derived copies does not reach them
-            self.filtered["D34"] += 1
-            an = None
+        # D34 (allow_none assigned to a cells that already has derived copies did not reach them) is repaired in /repo
         if an is not None:
             op["allow_none"] = an
         if not cached:
